@@ -364,55 +364,115 @@ func ruleResultOnError(c *Ctx, r *Report, rule string) {
 		})
 		r.check(ok && n > 0, rule, "execute", "returns vm.result, vm.binding whatever the error", "execute must return vm.result and vm.binding on every path (also with a runtime error)", c.pos(fd.Pos()))
 	}
-	if _, fd := c.find("Execute"); fd == nil {
-		r.bad(rule, "Execute", "function not found", "")
-	} else {
-		// result, binding come from the call of execute and are returned unconditionally
-		var resObj, bindObj types.Object
-		ast.Inspect(fd.Body, func(x ast.Node) bool {
-			as, ok := x.(*ast.AssignStmt)
-			if !ok || len(as.Rhs) != 1 {
-				return true
-			}
-			if call, ok := as.Rhs[0].(*ast.CallExpr); ok && c.calleeName(call) == "execute" && len(as.Lhs) >= 2 {
-				resObj, bindObj = c.objOf(as.Lhs[0]), c.objOf(as.Lhs[1])
-			}
-			return true
-		})
-		ok, n := resObj != nil, 0
-		ast.Inspect(fd.Body, func(x ast.Node) bool {
-			rs, isR := x.(*ast.ReturnStmt)
-			if !isR {
-				return true
-			}
-			n++
-			if len(rs.Results) == 0 {
-				return true // named results
-			}
-			if len(rs.Results) < 2 || !c.isObj(rs.Results[0], resObj) || !c.isObj(rs.Results[1], bindObj) {
-				ok = false
-			}
-			return true
-		})
-		r.check(ok && n > 0, rule, "Execute", "forwards the blocks and the binding", "Execute must return the blocks and binding it got from execute on every path", c.pos(fd.Pos()))
-	}
-	for _, name := range []string{"Interpret", "InterpretFile"} {
+	// Execute, Interpret and InterpretFile hand on what execute returned: on every path they return either the call
+	// of a function that does, or the (blocks, binding) variables they got from such a call; "no results" is returned
+	// only when a parse step failed
+	for _, name := range []string{"Execute", "Interpret", "InterpretFile"} {
 		_, fd := c.find(name)
 		if fd == nil {
 			r.bad(rule, name, "function not found", "")
 			continue
 		}
-		// shape: p, err := Parse*(...); if err != nil { return nil, nil, err }; return Execute(p, ...)
-		okExec := false
-		for _, s := range fd.Body.List {
-			if rs, ok := s.(*ast.ReturnStmt); ok && len(rs.Results) == 1 {
-				if call, ok := rs.Results[0].(*ast.CallExpr); ok && c.calleeName(call) == "Execute" {
-					okExec = true
-				}
-			}
-		}
-		r.check(okExec, rule, name, "returns Execute's results unchanged after a successful parse", name+" must end with `return Execute(...)`", c.pos(fd.Pos()))
+		ok, why := c.forwardsExec(fd, 0, map[*ast.FuncDecl]bool{})
+		r.check(ok, rule, name, "forwards the blocks and the binding execute produced, whatever the error", name+" must return the blocks and binding it got from execute on every path: "+why, c.pos(fd.Pos()))
 	}
+}
+
+// forwardsExec: see ruleResultOnError.
+func (c *Ctx) forwardsExec(fd *ast.FuncDecl, depth int, seen map[*ast.FuncDecl]bool) (bool, string) {
+	if depth > 4 || seen[fd] {
+		return false, "call chain too deep"
+	}
+	seen[fd] = true
+	defer delete(seen, fd)
+	isForwarder := func(call *ast.CallExpr) bool {
+		name := c.calleeName(call)
+		if name == "execute" {
+			return true
+		}
+		fn, ok := c.callee(call).(*types.Func)
+		if !ok || fn.Pkg() == nil || fn.Pkg().Path() != bclPath {
+			return false
+		}
+		hd := c.funcDecls[fn]
+		if hd == nil || hd.Body == nil || hd == fd {
+			return false
+		}
+		// a forwarder returns ([]Block, Binding, …)
+		sig := fn.Type().(*types.Signature)
+		if sig.Results().Len() < 2 || !isNamedSlice(sig.Results().At(0).Type(), "Block") {
+			return false
+		}
+		ok2, _ := c.forwardsExec(hd, depth+1, seen)
+		return ok2
+	}
+	// variables holding a forwarder's first two results, and error variables of parse steps
+	var resObj, bindObj types.Object
+	parseErr := map[types.Object]bool{}
+	ast.Inspect(fd.Body, func(x ast.Node) bool {
+		as, ok := x.(*ast.AssignStmt)
+		if !ok || len(as.Rhs) != 1 {
+			return true
+		}
+		call, ok := as.Rhs[0].(*ast.CallExpr)
+		if !ok {
+			return true
+		}
+		if len(as.Lhs) >= 2 && isForwarder(call) {
+			resObj, bindObj = c.objOf(as.Lhs[0]), c.objOf(as.Lhs[1])
+			return true
+		}
+		// a step returning (*Prog, error): parsing or loading
+		if len(as.Lhs) == 2 && isNamed(c.typeOf(as.Lhs[0]), bclPath, "Prog") {
+			parseErr[c.objOf(as.Lhs[1])] = true
+		}
+		return true
+	})
+	n := 0
+	okAll, why := true, ""
+	ast.Inspect(fd.Body, func(x ast.Node) bool {
+		if _, isLit := x.(*ast.FuncLit); isLit {
+			return false
+		}
+		rs, isR := x.(*ast.ReturnStmt)
+		if !isR {
+			return true
+		}
+		n++
+		switch {
+		case len(rs.Results) == 0:
+			// named results: they must be the forwarded variables
+			if fd.Type.Results == nil || resObj == nil {
+				okAll, why = false, "bare return without forwarded named results"
+			}
+		case len(rs.Results) == 1:
+			call, isC := rs.Results[0].(*ast.CallExpr)
+			if !isC || !isForwarder(call) {
+				okAll, why = false, "returns "+types.ExprString(rs.Results[0])+", which does not forward execute's results"
+			}
+		default:
+			if resObj != nil && c.isObj(rs.Results[0], resObj) && c.isObj(rs.Results[1], bindObj) {
+				return true
+			}
+			// no results: only because a parse step failed
+			if isNilIdent(rs.Results[0]) && isNilIdent(rs.Results[1]) {
+				for _, f := range splitFacts(c.factsAt(fd.Body, rs)) {
+					be, isB := stripParens(f.Cond).(*ast.BinaryExpr)
+					if isB && isNilIdent(be.Y) && (be.Op == token.NEQ) == f.Pos && parseErr[c.objOf(be.X)] {
+						return true
+					}
+				}
+				okAll, why = false, "returns no results on a path where the failure is not a parse failure ("+c.pos(rs.Pos())+")"
+				return true
+			}
+			okAll, why = false, "returns "+types.ExprString(rs.Results[0])+" instead of the blocks it got from execute ("+c.pos(rs.Pos())+")"
+		}
+		return true
+	})
+	if n == 0 {
+		return false, "no return statement"
+	}
+	return okAll, why
 }
 
 func ruleBlockKey(c *Ctx, r *Report, rule string) {
